@@ -89,6 +89,7 @@ def tfmt(t, n=160):
 
 MUTATORS = {'append', 'extend', 'insert', 'pop', 'remove', 'clear', 'sort', 'reverse',
             'add', 'discard', 'update', 'setdefault', 'popitem', '__setitem__', '__delitem__',
+            'difference_update', 'intersection_update', 'symmetric_difference_update',
             'send', 'throw', 'close'}
 
 
